@@ -143,7 +143,7 @@ class Net:
                 if after_step:
                     after_step()
                 if n > max_steps or n > 5000 + 500 * len(self.arrs):
-                    self.error = ("livelock", "more than %d kernel steps for %d arrivals" % (n - 1, len(self.arrs)))
+                    self.error = ("livelock", "kernel-steps-beyond-5000+500-per-arrival")
                     break
             if settled and self.error is None:
                 settled()
